@@ -130,6 +130,21 @@ func TestEngine(t *testing.T) {
 		return
 	}
 
+	if run_.Prop == "C20" {
+		n := run_.N(3000, 100000)
+		for i := 0; i < n; i++ {
+			if !run_.Mine(i) || i < start {
+				continue
+			}
+			id := fmt.Sprintf("%s/%d/storm", engine, i)
+			vc.Scn(id)
+			wd.Begin(id, nil)
+			runStorm(t, vc.NewRand(run_.Seed, engine+"-storm", uint64(i)), id, col)
+			wd.End()
+		}
+		col.Write(true)
+		return
+	}
 	sp := newSysSpace()
 	nSys := len(sp.cells)
 	nRand := run_.N(4000, 190000)
